@@ -78,7 +78,10 @@ fn run_case(toks: &[&str]) -> String {
     };
     // the filter as a global layer, as the per-layer filter of the recording layer, or as the right operand of an `or` whose left
     // operand lets nothing through (a function of the case: all three must decide alike)
-    let d = match toks.len() % 3 {
+    // (direct questions to the filter — `qi` — are asked of the global-layer deployment: a per-layer filter answers through
+    //  the registry's bookkeeping)
+    let deploy = if toks.iter().any(|t| *t == "qi") { 0 } else { toks.len() % 3 };
+    let d = match deploy {
         0 => Dispatch::new(tracing_subscriber::registry().with(Rec).with(filter)),
         1 => Dispatch::new(tracing_subscriber::registry().with(Rec.with_filter(filter))),
         _ => {
@@ -117,6 +120,18 @@ fn run_case(toks: &[&str]) -> String {
                         }
                         outs.push(format!("s:{}", GOT.with(|g| g.get())));
                     }
+                }
+                "qi" => {
+                    let is_ev = op[1] == "e";
+                    let o = &op[2..];
+                    let key = format!("{} {} {} {} {}", if is_ev { "ev" } else { "sp" }, o[0], o[1], o[2], o[3]);
+                    let m = *metas.entry(key).or_insert_with(|| {
+                        let fields: Vec<String> = if o[3] == "-" { Vec::new() } else { o[3].split('+').map(|s| s.to_string()).collect() };
+                        tv_harness::synth::mk_meta(o[0], o[1], o[2].parse().unwrap(), is_ev, &fields)
+                    });
+                    let i = d.register_callsite(m);
+                    let q = d.enabled(m);
+                    outs.push(format!("i:{},q:{}", if i.is_always() { "a" } else if i.is_never() { "n" } else { "s" }, if q { 1 } else { 0 }));
                 }
                 "rc" => {
                     let k: usize = op[1].parse().unwrap();
